@@ -76,12 +76,24 @@ class SeriesOps:
             return s.with_term(T.not_(("notnull", s.term)))
         if name in ("notna", "notnull"):
             return s.with_term(("notnull", s.term))
+        if name == "groupby" and s.frame is not None and len(s.ctx) == 3 and s.frame.base == s.ctx[0]:
+            key = arg0 if pos else kw.get("by")
+            if isinstance(key, Ser) and key.ctx == s.ctx and not key.positional and not s.positional:
+                # s.groupby(k) with k a series over the SAME rows (same index): the groups of frame.assign(<k's name>=k).groupby(<k's name>)[<s's name>]
+                src = s.frame if (s.frame.rows == s.ctx[1] and s.frame.order == s.ctx[2]) else s.frame.derive(rows=s.ctx[1], order=s.ctx[2])
+                g = src.derive()
+                vname = s.name if isinstance(s.name, str) and s.name != "__index__" else "__values__"
+                kname = key.name if isinstance(key.name, str) and key.name not in ("__index__", vname) else "__key__"
+                g.setcol(vname, s.term)
+                g.setcol(kname, key.term)
+                return GroupBy(g, (kname,), kw.get("as_index", True), vname, kw.get("sort", True))
+        named = lambda r: Ser(r.term, r.ctx, r.frame, s.name if isinstance(s.name, str) and s.name != "__index__" else None, r.positional)          # (the series' own name is kept)
         if name == "where":
             other = pos[1] if len(pos) > 1 else kw.get("other", ("nan",))
-            return s.with_term(T.ite(M.as_ser_term(arg0), s.term, M.as_ser_term(other)))
+            return named(s.with_term(T.ite(M.as_ser_term(arg0), s.term, M.as_ser_term(other))))
         if name == "mask":
             other = pos[1] if len(pos) > 1 else kw.get("other", ("nan",))
-            return s.with_term(T.ite(M.as_ser_term(arg0), M.as_ser_term(other), s.term))
+            return named(s.with_term(T.ite(M.as_ser_term(arg0), M.as_ser_term(other), s.term)))
         if name in ("apply", "map"):
             own = ("func", "convert_dtype", "args", "by_row") if name == "apply" else ("arg", "na_action")
             extra = {k: v for k, v in kw.items() if k not in own}
